@@ -1,13 +1,15 @@
-from . import c09, c10, c16, fixedchk, sem
+from . import c09, c10, c16, fixedchk, graph, sem
 
 CHECKS = {
     "C01": sem.run,
     "C02": sem.run,
+    "C03": graph.c03,
     "C05": fixedchk.c05,
     "C06": fixedchk.c06,
     "C08": fixedchk.c08,
     "C09": c09.run,
     "C10": c10.run,
+    "C11": graph.c11,
     "C12": fixedchk.c12,
     "C16": c16.run,
     "C17": fixedchk.c17,
